@@ -10,7 +10,7 @@ import vlib
 
 BASE = dict(LeafCap=3, IntCap=3, FixSplitTomb="TRUE", FixDeleteLSN="TRUE", FixReplayLSN="TRUE", FixReplayRoot="TRUE", FixReplayKey="TRUE", FixStmtAtomic="TRUE",
             Tables='{"t1", "t2"}', Vals="{1, 2}", BadMode='"none"', WalSteps="FALSE", FlushSteps="FALSE",
-            CrashAt="{}", NoCrashIn="{}", Wheres=None, DmlTables=None, Ops='{"create", "insert", "update", "delete"}', MaxStmts=4, MaxRows=2, MaxFlush=1, MaxCrash=0, MaxEvict=0, EmitOn="TRUE", EmitSel='"all"', EmitMod=1, Script="<- ScriptNone", ScriptRows="<- RowsNone")
+            CrashAt="{}", NoCrashIn="{}", Wheres=None, DmlTables=None, Ops='{"create", "insert", "update", "delete"}', MaxStmts=4, MaxRows=2, MaxFlush=1, MaxCrash=0, MaxEvict=0, EmitOn="TRUE", EmitSel='"all"', EmitMod=1, Script="<- ScriptNone", ScriptRows="<- RowsNone", ScriptSeqs="<- SeqsNone")
 INVS = "ScanEqAbs CatalogOK TreesOK IdsOK StartsUp NothingLost"
 
 
